@@ -10,6 +10,7 @@ package main
 // use of the callee's frame sound.
 
 import (
+	"os"
 	"fmt"
 	"go/types"
 	"strings"
@@ -48,6 +49,18 @@ func (fr *FnRun) resolveMods() []modLoc {
 				if m.X.Kind == "ident" && m.X.Name == "all" && len(m.Args) == 1 {
 					v := ex.force(entry, fr.eval(m.Args[0], env))
 					out = append(out, fr.allLocs(entry, v, m.String())...)
+					return
+				}
+				if m.X.Kind == "ident" && m.X.Name == "pointees" && len(m.Args) == 1 {
+					if sv, ok := ex.force(entry, fr.eval(m.Args[0], env)).(*SliceV); ok && sv.Arr != nil {
+						// the objects of the elements are named <array name>[index]...
+						out = append(out, modLoc{prefix: accessPrefix(sv.Arr.Name) + "[", src: m.String()})
+						if av, ok := entry.heap[sv.Arr].(*ArrayV); ok {
+							if ra, ok := av.Data.(*RefArr); ok {
+								out = append(out, modLoc{prefix: ra.Base + "[", src: m.String()})
+							}
+						}
+					}
 					return
 				}
 				if m.X.Kind == "ident" && m.X.Name == "contents" && len(m.Args) == 1 {
@@ -235,8 +248,20 @@ func (fr *FnRun) diffVal(entry, fin *State, a, b Val, path []PathElem, desc stri
 		}
 	case *ArrayV:
 		if y, ok := b.(*ArrayV); ok && arrDataKey(x.Data) == arrDataKey(y.Data) {
-			if _, isRef := x.Data.(*RefArr); !isRef || x.Data == y.Data {
+			xr, isRef := x.Data.(*RefArr)
+			if !isRef || x.Data == y.Data {
 				return
+			}
+			// reads only memoise elements (Known grows): unchanged unless a write happened
+			if yr, ok := y.Data.(*RefArr); ok && xr.Base == yr.Base && xr.Ver == yr.Ver && xr.Dirty == yr.Dirty {
+				return
+			}
+			if os.Getenv("GOVC_DEBUG_FRAME") != "" {
+				if yr, ok := y.Data.(*RefArr); ok {
+					fmt.Fprintf(os.Stderr, "refarr differs: base %q/%q ver %d/%d dirty %v/%v\n", xr.Base, yr.Base, xr.Ver, yr.Ver, xr.Dirty, yr.Dirty)
+				} else {
+					fmt.Fprintf(os.Stderr, "refarr vs %T\n", y.Data)
+				}
 			}
 		}
 	case *IfaceV:
